@@ -32,7 +32,10 @@ import (
 
 const propID = "C12"
 
-func TestMain(m *testing.M) { evid.Main(m) }
+func TestMain(m *testing.M) {
+	registerFallbackTypes() // harness key managers + fake KMS client, for keysets of key types without a parser
+	evid.Main(m)
+}
 
 // knownOrFail fails the case unless the coordinator has listed the finding signature.
 func knownOrFail(rt *rapid.T, sig, msg string) {
